@@ -30,7 +30,7 @@ def all_keys(desc):
 
 
 def write_trace(tracedir, desc, history, require=None, extra_meta=None, cpus_on="first",
-                per_thread_meta=None, make_cfg=True, finished=True, cpu_rng=None):
+                per_thread_meta=None, make_cfg=True, finished=True, cpu_rng=None, rank_on="all"):
     """history: list of (clock, key, mcv, payload[, jumbo]).  Each thread of
     `desc` gets a stream (possibly with zero events).  loom_cpus are carried
     by the first thread of the loom (cpus_on='first') or by every thread
@@ -39,6 +39,13 @@ def write_trace(tracedir, desc, history, require=None, extra_meta=None, cpus_on=
     each piece in its own order (the union is the whole list)."""
     import random as _random
     cpu_rng = cpu_rng or _random.Random(0)
+    # rank_on='one': the rank attributes of a process are carried by a single thread drawn
+    # from cpu_rng (the one that called ovni_proc_set_rank), not by all of them
+    carrier = {}
+    if rank_on == "one":
+        for l in desc["looms"]:
+            for p in l["procs"]:
+                carrier[(l["name"], p["pid"])] = cpu_rng.choice(p["threads"])
     split = {}
     if cpus_on == "split":
         for l in desc["looms"]:
@@ -69,8 +76,10 @@ def write_trace(tracedir, desc, history, require=None, extra_meta=None, cpus_on=
                 else:
                     cpus = l["cpus"] if (first or cpus_on == "all") else None
                 first = False
+                has_rank = rank_on == "all" or carrier.get((l["name"], p["pid"])) == t
                 meta = obs.thread_meta(t, p["pid"], l["name"], app_id=p.get("appid", 1), cpus=cpus,
-                                       require=require, rank=p.get("rank"), nranks=p.get("nranks"),
+                                       require=require, rank=p.get("rank") if has_rank else None,
+                                       nranks=p.get("nranks") if has_rank else None,
                                        extra=extra_meta, finished=finished)
                 if per_thread_meta and key in per_thread_meta:
                     for k, v in per_thread_meta[key].items():
